@@ -333,6 +333,14 @@ fn family_special() -> Vec<Case> {
     out.push(Case { family: "name-spaces", defs: vec![d("again", &["l"], "dec cx jnz l")], data: String::new(), code: "start:\nmov cx, 3\nagain:\nagain(again)\n".into() });
     out.push(Case { family: "name-spaces", defs: vec![d("go", &["l"], "jmp l"), d("count", &["l"], "dec cx go(count) inc l")], data: String::new(), code: "start:\ncount(ax)\ncount:\nhlt\n".into() });
     out.push(Case { family: "name-spaces", defs: vec![d("f", &["p"], "call p")], data: String::new(), code: "def f {\ninc ax\n}\nstart:\nf(f)\n".into() });
+    // parameter names are case-sensitive like every other name: an identifier in the body that differs from a
+    // parameter only in case (a label, a data label, a procedure) is not the parameter
+    out.push(Case { family: "parameter-case", defs: vec![d("br", &["t"], "jz t jmp T")], data: String::new(), code: "start:\nxor ax, ax\nbr(near_)\nnear_:\ninc cx\nT:\ninc dx\n".into() });
+    out.push(Case { family: "parameter-case", defs: vec![d("br", &["T"], "jz T jmp t")], data: String::new(), code: "start:\nxor ax, ax\nbr(near_)\nnear_:\ninc cx\nt:\ninc dx\n".into() });
+    out.push(Case { family: "parameter-case", defs: vec![d("ld", &["v"], "mov al, byte V mov bl, v")], data: "V: db 7\n".into(), code: "start:\nld(3)\n".into() });
+    out.push(Case { family: "parameter-case", defs: vec![d("cl_", &["p"], "call P inc p")], data: String::new(), code: "def P {\ninc si\n}\nstart:\ncl_(ax)\n".into() });
+    out.push(Case { family: "parameter-case", defs: vec![d("two", &["x", "X"], "mov x, 1 mov X, 2")], data: String::new(), code: "start:\ntwo(ax, bx)\ntwo(cx, dx)\n".into() });
+    out.push(Case { family: "parameter-case", defs: vec![d("inner", &["q"], "inc q"), d("outer", &["Q"], "inner(Q) jmp q")], data: String::new(), code: "start:\nouter(ax)\nq:\n".into() });
     // a macro that leaves through the same label more than once, the label defined before / after the use /
     // inside a procedure; the same macro used twice with the same label
     for (k, code) in [
